@@ -195,6 +195,8 @@ pub enum Op {
   /// harness-only: a transparent stage that swallows unsubscription (a source that cannot be
   /// cancelled): everything upstream keeps pushing after unsubscribe()
   Deaf,
+  /// `complete_status()` used as a stage of the pipeline (its status handle is dropped)
+  Status,
   BoxIt,
 }
 
@@ -268,6 +270,7 @@ impl Op {
       Op::Share => "share",
       Op::Spy(_) => "spy",
       Op::Deaf => "deaf",
+      Op::Status => "complete_status",
       Op::BoxIt => "box_it",
     }
   }
